@@ -111,10 +111,24 @@ BfsPathsOK(r) ==
                           /\ OnePathOK(r, d, r.fromv[t + 1], t)
                           /\ AllPathsOK(r, d, r.allpaths[t + 1], t)
                           /\ AllPathsOK(r, d, r.allfromv[t + 1], t)
+\* findPathToVertexFromPredecessors with an explicit source s2 on the table of a search from
+\* r.s: the walk back from t along the single predecessors; a path if it meets s2, otherwise
+\* "Path could not be found" (std::runtime_error, logged as <<-2>>)
+ReconOK(r) ==
+    LET RECURSIVE Back(_, _, _, _)
+        Back(cur, s2, acc, fuel) ==
+            IF cur = INF \/ fuel = 0 THEN <<-2>>
+            ELSE IF r.pred[cur + 1] = s2 THEN <<s2>> \o <<cur>> \o acc
+            ELSE Back(r.pred[cur + 1], s2, <<cur>> \o acc, fuel - 1)
+    IN  \A k \in 1 .. Len(r.recon) :
+          LET s2 == r.recon[k][1]
+              t  == r.recon[k][2] IN
+          r.recon[k][3] = (IF s2 = t THEN <<s2>> ELSE Back(t, s2, <<>>, r.g.n + 1))
+
 \* C19: neighbourhood scans bounded by the size of the graph
 BfsScansOK(r) == r.scans1 <= r.V /\ r.scans2 <= r.V + r.E
 
-BfsResultsOK(r) == BfsDistOK(r) /\ BfsPredOK(r) /\ BfsAllPredOK(r) /\ BfsPathsOK(r)
+BfsResultsOK(r) == BfsDistOK(r) /\ BfsPredOK(r) /\ BfsAllPredOK(r) /\ BfsPathsOK(r) /\ ReconOK(r)
 
 \* C12: minimum weighted distances and a consistent tree
 DijkstraDistOK(r) ==
